@@ -233,7 +233,11 @@ def c06(tr, st, c):
     ok_open = np.abs(agg - need_open) <= R * sc * 10 + 1e-300
     ok_closed = np.abs(agg - need_closed) <= R * sc * 10 + 1e-300
     # the "all inventories close to goal" shortcut is global: one of the two must hold for all cells
-    if not (np.where(avail, ok_open, True).all() or np.where(avail, ok_closed, True).all()):
+    # ... and the gap may be dropped only when every inventory is within the stated closeness tolerance
+    # (NumPy's default rtol 1e-5 / atol 1e-8; 10 % slack so that exact ties never alarm)
+    fin2 = c["fin"][:, None] & np.ones_like(goal, dtype=bool)
+    may_close = bool(np.all(np.abs(st_f - goal)[fin2] <= 1.1e-8 + 1.1e-5 * np.abs(goal)[fin2])) if fin2.any() else True
+    if not (np.where(avail, ok_open, True).all() or (may_close and np.where(avail, ok_closed, True).all())):
         bad = avail & ~ok_open
         s, f = np.argwhere(bad)[0]
         out.append(viol("C06", t, "orders summed over suppliers differ from the need for the input", input=int(s), cell=int(f),
